@@ -104,6 +104,12 @@ Proof.
   cbn [set_vars set_stk stk vars line out drop_to]. rewrite N.eqb_refl. destruct s; reflexivity.
 Qed.
 
+Lemma var_local_none vs n : var_get vs n = None -> var_local vs n = None.
+Proof.
+  induction vs as [|[k v] r IH]; intros H; [reflexivity|]. cbn [var_get var_local] in *.
+  destruct (str_eqb k scope_mark); [reflexivity|]. destruct (str_eqb k n); [discriminate H|now apply IH].
+Qed.
+
 (* x := e' for a non-literal e', x new *)
 Lemma decl_block m k en x e s :
   env_ok k en = true -> vars s = vars_of k en -> well_typed k en e = true -> is_const e = false ->
@@ -121,7 +127,7 @@ Proof.
   destruct (go_eval k en e) as [v| |]; [|rewrite gblock_push_mark, gblock_app; fold s1; rewrite He; reflexivity|contradiction].
   destruct He as [Rv He]. split; [exact Rv|]. rewrite gblock_push_mark, gblock_app. fold s1. rewrite He.
   unfold top_of. rewrite Hc. unfold gblock. cbn [run_block]. unfold gexec, nm. cbn [exec set_stk stk vars line out].
-  unfold s1. cbn [set_stk vars stk line out]. rewrite Hv, var_get_vars_of, Hn.
+  unfold s1. cbn [set_stk vars stk line out]. rewrite Hv. rewrite var_local_none by (now rewrite var_get_vars_of, Hn).
   cbn [set_vars set_stk stk vars line out]. rewrite Hu.
   unfold do_store. cbn [set_stk set_vars vars stk line out fst var_get var_set]. rewrite str_eqb_refl_.
   cbn [set_vars set_stk stk vars line out drop_to]. rewrite N.eqb_refl. destruct s; reflexivity.
